@@ -1,59 +1,57 @@
 /-
   DDS.Proofs.GenPagRead — the read-only queries of the REGENERATED buffered-paginated store
-  (`DDS/Generated/CodePaginated.lean`) equal those of the hand-written model `DDS.PStore`.
-  (header completed at the end of the file's development; see the theorems `MinIndex_eq`, `MaxIndex_eq`,
-  `minIndexWithCumulCount_eq`, `KeyAtRank_eq`)
+  (`DDS/Generated/CodePaginated.lean`, namespace `DDS.Gen.Paginated`) equal those of the hand-written model
+  `DDS.PStore` (`DDS/Model/Paginated.lean`), on `toGen s cap` for EVERY model store `s` and capacity `cap`.
+
+  Main results (namespace `DDS.GenPag`; auxiliary loop lemmas live in `DDS.GenPag.Read`):
+
+  * `MinIndex_eq`  : `MinIndex fuel (toGen s cap) = .ok (match s.minIndex? with | some m => (m, nil) | none => (0, errUndefinedMinIndex))`
+      for `minFuel s = pages.size + pageLen + 1 ≤ fuel`, under `PagesFull s` (every page is empty or has at least
+      `pageLen` lines; `PStore.Inv` implies it: `PagesFull_of_inv`, `MinIndex_eq_of_inv`).
+      The hypothesis is needed: the Go/generated line loop of `MinIndex` runs up to `pageLen` (or `lineIndex(minIndex)`)
+      with a CHECKED read `page[lineIndex]`, the model reads missing lines as 0.  DISAGREEMENT outside the invariant,
+      proved: `MinIndex_short_page_gen` (generated code panics) vs `MinIndex_short_page_model` (model says `none`) on a
+      store with a one-line page and `pageLen = 2`.  Unreachable from `NewBufferedPaginatedStore` (pages are made by
+      `make([]float64, pageLen)`).
+  * `MaxIndex_eq`  : likewise with `s.maxIndex?`, for ALL stores (its line loop starts at `len(page)-1`, so every read is
+      in range), `maxFuel s = pages.size + maxPageSize s + 1 ≤ fuel` (`maxPageSize` = largest page; `≤ pageLen` under
+      the invariant: `maxFuel_le_of_inv`).
+  * `minIndexWithCumulCount_eq` : with the predicate `fun c => .ok (decide (rank < c))` the generated function returns
+      the store with SORTED buffer and `firstExceeding s.pageLines (sortInts s.buffer) 0 rank` (`none` ↦ the
+      "never verified" error), for all stores, `cumFuel s = buffer.length + 1 ≤ fuel`.
+  * `KeyAtRank_eq` : `KeyAtRank fuel (toGen s cap) rank = .ok (toGen {s with buffer := sortInts s.buffer} cap, s.keyAtRank rank)`
+      for all stores and ranks, `keyFuel s = max (cumFuel s) (maxFuel s) ≤ fuel`.  The fallback calls `MaxIndex` on the
+      sorted store; `Read.maxIndex?_sorted` (from `Read.listMax?_perm`: `listMax?` is permutation-invariant) brings it
+      back to `s.maxIndex?`.
+
+  All fuel bounds are functions of the store, hence satisfiable (`fuel := minFuel s` …).
+  The sentinel: with `minPageIndex = maxInt` Go's `minPageIndex + len(pages)` wraps and the page loop does not run;
+  the generated code and the model both use unbounded integers and therefore agree with EACH OTHER on such stores
+  (which is what is proved; no sentinel hypothesis appears).  The page arithmetic helpers (`gen_pageIndex`,
+  `gen_lineIndex`, `gen_index_nat`) come from `GenPagBase`.
 -/
-import DDS.Proofs.GenPagDefs
+import DDS.Proofs.GenPagBase
+import DDS.Proofs.Paginated
 
 namespace DDS.GenPag
 
 open DDS DDS.GoSem DDS.GenDense
 open DDS.Gen.Paginated
 
-/-! ## local helper equations (page arithmetic) -/
+namespace Read
 
-theorem pageLen_cast (s : PStore) : ((s.pageLen : Nat) : Int) = (2 : Int) ^ s.pageLenLog2 := by
-  unfold PStore.pageLen; simp
+/-! ## page arithmetic: the helper equations of `GenPagBase` under the names used below -/
+
+theorem pageLen_cast (s : PStore) : ((s.pageLen : Nat) : Int) = (2 : Int) ^ s.pageLenLog2 := cast_pageLen s
 
 theorem rd_pageIndex (s : PStore) (cap : Int) (i : Int) :
-    BufferedPaginatedStore.pageIndex (toGen s cap) i = s.pageIndex i := by
-  unfold BufferedPaginatedStore.pageIndex PStore.pageIndex GoSem.shrInt
-  simp [pageLen_cast]
+    BufferedPaginatedStore.pageIndex (toGen s cap) i = s.pageIndex i := gen_pageIndex s cap i
 
 theorem rd_index (s : PStore) (cap : Int) (p : Int) (l : Nat) :
-    BufferedPaginatedStore.index (toGen s cap) p (l : Int) = s.index p l := by
-  unfold BufferedPaginatedStore.index PStore.index
-  simp [pageLen_cast]
-
-theorem andInt_mask (i : Int) (k : Nat) : GoSem.andInt i ((2 : Int) ^ k - 1) = i % (2 : Int) ^ k := by
-  have hpos : 0 < 2 ^ k := Nat.two_pow_pos k
-  have e : (2 : Int) ^ k = ((2 ^ k : Nat) : Int) := by simp
-  have hm : ((2 : Int) ^ k - 1) = Int.ofNat (2 ^ k - 1) := by
-    simp only [Int.ofNat_eq_natCast]
-    rw [Int.natCast_sub hpos]; simp
-  rw [hm]
-  cases i with
-  | ofNat a =>
-    simp only [GoSem.andInt, Nat.and_two_pow_sub_one_eq_mod]
-    simp
-  | negSucc a =>
-    simp only [GoSem.andInt]
-    rw [Nat.and_comm, Nat.and_two_pow_sub_one_eq_mod, e]
-    rw [Int.negSucc_emod a (by exact_mod_cast hpos)]
-    have : a % 2 ^ k < 2 ^ k := Nat.mod_lt _ hpos
-    generalize 2 ^ k = m at *
-    omega
+    BufferedPaginatedStore.index (toGen s cap) p (l : Int) = s.index p l := gen_index_nat s cap p l
 
 theorem rd_lineIndex (s : PStore) (cap : Int) (i : Int) :
-    BufferedPaginatedStore.lineIndex (toGen s cap) i = ((s.lineIndex i : Nat) : Int) := by
-  unfold BufferedPaginatedStore.lineIndex PStore.lineIndex
-  simp only [toGen_pageLenMask, andInt_mask, pageLen_cast]
-  have : 0 ≤ i % (2 : Int) ^ s.pageLenLog2 := Int.emod_nonneg _ (by
-    have : (0 : Int) < 2 ^ s.pageLenLog2 := Int.pow_pos (by decide)
-    omega)
-  omega
-
+    BufferedPaginatedStore.lineIndex (toGen s cap) i = ((s.lineIndex i : Nat) : Int) := gen_lineIndex s cap i
 
 /-! ## access to the page table -/
 
@@ -69,20 +67,14 @@ theorem pages_idx (s : PStore) (k : Nat) (hk : k < s.pages.size) :
   rw [if_neg (by omega)]
   simp [hk]
 
-theorem len_pagesL (s : PStore) : GoSem.len (pagesL s) = (s.pages.size : Int) := by
-  simp [GoSem.len, pagesL]
+end Read
+open Read
 
 /-- every allocated page is empty or holds at least `pageLen` lines (part of `PStore.Inv`: `pageSizes`) -/
 def PagesFull (s : PStore) : Prop :=
   ∀ k, (s.pages.getD k #[]).size = 0 ∨ s.pageLen ≤ (s.pages.getD k #[]).size
 
-theorem lineIndex_lt (s : PStore) (i : Int) : s.lineIndex i < s.pageLen := by
-  unfold PStore.lineIndex
-  have hp : (0 : Int) < (s.pageLen : Int) := by
-    rw [pageLen_cast]; exact Int.pow_pos (by decide)
-  have h1 := Int.emod_lt_of_pos i hp
-  have h2 := Int.emod_nonneg i (Int.ne_of_gt hp)
-  omega
+namespace Read
 
 /-! ## MinIndex -/
 
@@ -240,6 +232,9 @@ theorem min_loop1 (s : PStore) (cap : Int) (hfull : PagesFull s) (bmin : Option 
           if_true]
         exact minK_eq _ _
 
+end Read
+open Read
+
 /-- fuel for `MinIndex`: one unit per allocated page slot, plus one scan of a page -/
 def minFuel (s : PStore) : Nat := s.pages.size + s.pageLen + 1
 
@@ -256,6 +251,8 @@ theorem MinIndex_eq (s : PStore) (cap : Int) (fuel : Nat) (hfull : PagesFull s) 
   simp only [Int.natCast_zero, Int.add_zero] at h
   rw [← List.range_eq_range'] at h
   exact h
+
+namespace Read
 
 /-! ## MaxIndex -/
 
@@ -322,8 +319,13 @@ theorem max_loop2 (g : GP) (p : Int) (pg : Array Rat) (ls : Nat) (X : Loop Int (
       simp only [ge_iff_le, hls, decide_false, hnil]
       rfl
 
+end Read
+open Read
+
 /-- the largest page size (bounds the line loop of `MaxIndex`, which starts at `len(page)-1`) -/
 def maxPageSize (s : PStore) : Nat := (s.pages.toList.map Array.size).foldr max 0
+
+namespace Read
 
 theorem le_foldr_max (l : List Nat) (a : Nat) (h : a ∈ l) : a ≤ l.foldr max 0 := by
   induction l with
@@ -435,6 +437,9 @@ theorem max_loop1 (s : PStore) (cap : Int) (bmax : Option Int) :
           Bool.not_false, if_true]
         exact maxK_eq _ _
 
+end Read
+open Read
+
 /-- fuel for `MaxIndex`: one unit per allocated page slot, plus one scan of the largest page -/
 def maxFuel (s : PStore) : Nat := s.pages.size + maxPageSize s + 1
 
@@ -448,6 +453,8 @@ theorem MaxIndex_eq (s : PStore) (cap : Int) (fuel : Nat) (hf : maxFuel s ≤ fu
   simp only [toGen_buffer, max_loop3, Loop.elim_done, toGen_minPageIndex, toGen_pages, len_pagesL]
   exact max_loop1 s cap (PStore.listMax? s.buffer) s.pages.size fuel (Nat.le_refl _)
     (by unfold maxFuel at hf; omega)
+
+namespace Read
 
 /-! ## minIndexWithCumulCount (predicate `cumulCount > rank`) and KeyAtRank -/
 
@@ -668,11 +675,19 @@ theorem cum_loop2 (s : PStore) (cap : Int) (rank : Rat) (fuel : Nat)
     simp only [Int.cast_ofNat_Int] at h3
     exact h3
 
+end Read
+open Read
+
 /-- fuel for `minIndexWithCumulCount`: each buffer-draining loop runs at most `len(buffer)` times -/
 def cumFuel (s : PStore) : Nat := s.buffer.length + 1
 
+namespace Read
+
 theorem sortBuffer_toGen (s : PStore) (cap : Int) :
     BufferedPaginatedStore.sortBuffer (toGen s cap) = toGen { s with buffer := PStore.sortInts s.buffer } cap := rfl
+
+end Read
+open Read
 
 /-- **minIndexWithCumulCount** with the predicate `cumulCount > rank`: the buffer is sorted in place, and the
     answer is the model's `firstExceeding` over the page lines and the sorted buffer -/
@@ -704,6 +719,8 @@ theorem minIndexWithCumulCount_eq (s : PStore) (cap : Int) (rank : Rat) (fuel : 
   refine Eq.trans ?_ (h2.trans ?_)
   · rfl
   · cases PStore.firstExceeding s.pageLines (PStore.sortInts s.buffer) 0 rank <;> rfl
+
+namespace Read
 
 /-! ### `maxIndex?` does not see the order of the buffer -/
 
@@ -775,6 +792,9 @@ theorem maxIndex?_sorted (s : PStore) :
   have hp : (PStore.sortInts s.buffer).Perm s.buffer := List.mergeSort_perm s.buffer _
   rw [listMax?_perm hp]
 
+end Read
+open Read
+
 /-- fuel for `KeyAtRank`: the cumulative-count loops, and `MaxIndex` for the fallback -/
 def keyFuel (s : PStore) : Nat := max (cumFuel s) (maxFuel s)
 
@@ -794,5 +814,56 @@ theorem KeyAtRank_eq (s : PStore) (cap : Int) (rank : Rat) (fuel : Nat) (hf : ke
     simp only [Res.bind_ok]
     rw [if_pos (by decide), MaxIndex_eq _ cap fuel hf2, maxIndex?_sorted]
     cases s.maxIndex? <;> rfl
+
+/-! ## the hypothesis of `MinIndex_eq`, fuel under the invariant, and the disagreement without it -/
+
+/-- the store invariant gives `PagesFull` (materialised pages have exactly `pageLen` lines) -/
+theorem PagesFull_of_inv (s : PStore) (h : PStore.Inv s) : PagesFull s := by
+  intro k
+  rcases h.pageSizes k with h0 | h1
+  · exact Or.inl h0
+  · exact Or.inr (Nat.le_of_eq h1.symm)
+
+theorem foldr_max_le (l : List Nat) (n : Nat) (h : ∀ a ∈ l, a ≤ n) : l.foldr max 0 ≤ n := by
+  induction l with
+  | nil => exact Nat.zero_le _
+  | cons x xs ih =>
+    simp only [List.foldr_cons]
+    exact Nat.max_le.2 ⟨h x (List.mem_cons_self ..), ih (fun a ha => h a (List.mem_cons_of_mem _ ha))⟩
+
+/-- under the invariant every page has at most `pageLen` lines, so `pages.size + pageLen + 1` is enough fuel for
+    `MaxIndex` too -/
+theorem maxFuel_le_of_inv (s : PStore) (h : PStore.Inv s) : maxFuel s ≤ s.pages.size + s.pageLen + 1 := by
+  have : maxPageSize s ≤ s.pageLen := by
+    apply foldr_max_le
+    intro a ha
+    simp only [List.mem_map, Array.mem_toList_iff] at ha
+    obtain ⟨pg, hpg, rfl⟩ := ha
+    obtain ⟨k, hk, rfl⟩ := Array.mem_iff_getElem.1 hpg
+    have := h.pageSizes k
+    simp only [Array.getD_eq_getD_getElem?, hk, Array.getElem?_eq_getElem, Option.getD_some] at this
+    omega
+  unfold maxFuel; omega
+
+/-- `MinIndex` under the store invariant -/
+theorem MinIndex_eq_of_inv (s : PStore) (cap : Int) (fuel : Nat) (h : PStore.Inv s) (hf : minFuel s ≤ fuel) :
+    BufferedPaginatedStore.MinIndex fuel (toGen s cap)
+      = .ok (match s.minIndex? with
+             | some m => (m, GoErr.nil)
+             | none => ((0 : Int), errUndefinedMinIndex)) :=
+  MinIndex_eq s cap fuel (PagesFull_of_inv s h) hf
+
+/-- a store outside the invariant: one materialised page with a single line although `pageLen = 2` -/
+def shortPageStore : PStore :=
+  { buffer := [], trigger := 4, pages := #[#[0]], minPageIndex := 0, pageLenLog2 := 1 }
+
+/-- DISAGREEMENT without `PagesFull`: the generated `MinIndex` reads `page[1]` of the one-line page and panics,
+    the model reads out-of-range lines as 0 and answers "empty" -/
+theorem MinIndex_short_page_gen :
+    BufferedPaginatedStore.MinIndex (minFuel shortPageStore) (toGen shortPageStore 4) = .panic := by
+  rfl
+
+theorem MinIndex_short_page_model : shortPageStore.minIndex? = none := by
+  rfl
 
 end DDS.GenPag
